@@ -11,6 +11,7 @@ mod json;
 mod orders;
 mod seq;
 mod entry;
+mod iso;
 
 fn main() {
     let args: Vec<String> = std::env::args().collect();
@@ -27,6 +28,7 @@ fn main() {
         "orders" => orders::main(&rest),
         "seq" => seq::main(&rest),
         "entry" => entry::main(&rest),
+        "iso" => iso::main(&rest),
         _ => {
             eprintln!("usage: th <engine> <args..>");
             2
